@@ -998,7 +998,7 @@ def _name_sets(r, pl, mods, kernel2d):
         seen = set()
         for name in wrong:
             refuses = "sasview" if name in expected else "direct"
-            pattern = re.sub(r"\d+", "#", name)
+            pattern = re.sub(r"\d+(?=$|_M0|_mtheta|_mphi|_pd)", "#", name)     # the vector index only
             if (refuses, pattern) in seen:
                 continue
             seen.add((refuses, pattern))
